@@ -8,6 +8,7 @@ CONSTANTS
   Outif <- OutifPinned
   TIE = FALSE
   ORACLE = FALSE
+  BigCases <- BigNone
 INVARIANT TypeOK
 INVARIANT EmitCap
 CHECK_DEADLOCK FALSE
